@@ -17,7 +17,8 @@ GOENV = dict(os.environ, GOFLAGS="-mod=mod", GOPROXY="off", GOSUMDB="off", GOTOO
              CGO_ENABLED="0")
 
 FORBIDDEN = re.compile(r"\b(Admitted|admit|Axiom|Axioms|Parameter|Parameters|Conjecture|Hypothesis|"
-                       r"Variable|Unset Guard|bypass_check|Admit Obligations|native_compute)\b")
+                       r"Hypotheses|Variable|Variables|Context|Unset Guard|Guard Checking|Positivity Checking|Universe Checking|"
+                       r"bypass_check|Admit Obligations|native_compute|type-in-type|impredicative-set)\b")
 ALLOWED_AXIOMS = set()  # the development is closed under the global context
 
 
@@ -164,6 +165,11 @@ def audit_sources():
                 if m:
                     # "Variable"/"Hypothesis" are allowed inside a Section only; none is used at all
                     bad.append("%s:%d: %s" % (os.path.relpath(p, VERIF), i, m.group(0)))
+    # the project file may pass only the -Q mapping and file names to coqc
+    for i, line in enumerate(open(os.path.join(COQ, "_CoqProject")).read().splitlines(), 1):
+        line = line.strip()
+        if line and not (line.startswith("-Q ") or line.endswith(".v")):
+            bad.append("coq/_CoqProject:%d: %s" % (i, line))
     return bad
 
 
@@ -382,6 +388,18 @@ def load_known(prop):
             if m and m.group(1) == prop:
                 fixed.append((m.group(2), m.group(3)))
     return known, fixed
+
+
+def coqchk(prop, log):
+    """Thorough tier: re-check the property file and everything it depends on
+    with the independent checker; returns (ok, summary text)."""
+    cmd = ["timeout", "3000", "coqchk", "-silent", "-o", "-Q", "theories", "RDPGW", "RDPGW.Properties.%s" % prop]
+    rc, out = sh(cmd, cwd=COQ)
+    log.append((" ".join(cmd[2:]), rc))
+    summary = out[out.find("CONTEXT SUMMARY"):] if "CONTEXT SUMMARY" in out else tail(out)
+    ok = (rc == 0 and "* Axioms: <none>" in summary and "type-in-type: <none>" in summary
+          and "unsafe (co)fixpoints: <none>" in summary and "positivity is assumed: <none>" in summary)
+    return ok, " ".join(summary.split())
 
 
 def write_replay(prop, name, payload):
